@@ -240,8 +240,9 @@ func (cfg *Config) loadCertResourceAnyIssuer(ctx context.Context, certNamesKey s
 func (cfg *Config) loadCertResource(ctx context.Context, issuer Issuer, certNamesKey string) (CertificateResource, error) {
 	certRes := CertificateResource{issuerKey: issuer.IssuerKey()}
 
-	// don't use the Lookup profile because we might be loading a wildcard cert which is rejected by the Lookup profile
-	normalizedName, err := idna.ToASCII(certNamesKey)
+	// don't use the Lookup profile because we might be loading a wildcard cert which is rejected by the Lookup profile;
+	// lower-case and trim first, as obtainCert and renewCert do, so that every spelling looks where they stored
+	normalizedName, err := idna.ToASCII(strings.ToLower(strings.TrimSpace(certNamesKey)))
 	if err != nil {
 		return CertificateResource{}, fmt.Errorf("converting '%s' to ASCII: %v", certNamesKey, err)
 	}
